@@ -344,6 +344,42 @@ VARIANTS = [
      "old": "        if self._normalize_flag_val(ctx) & self._flag_val:\n            return reader.read(self._ser_spec, ctx=ctx)\n",
      "new": "        current = self._normalize_flag_val(ctx)\n        if current & self._flag_val:\n"
             "            return reader.read(self._ser_spec, ctx=ctx)\n"},
+    # ------------------------------------------------------------------ R1 read-until-sentinel iterators
+    {"name": "P R1 VertexWeights.deserialize as iter(callable, sentinel) under islice, explicit loop", "file": MESH,
+     "expect": "silent",
+     "old": "        for _ in range(cls.INFLUENCE_LIMIT):\n            joint_idx = reader.read_bytes(1)[0]\n"
+            "            if joint_idx == cls.INFLUENCE_TERM:\n                break\n",
+     "new": "        import itertools\n        pull = iter(lambda: reader.read_bytes(1)[0], cls.INFLUENCE_TERM)\n"
+            "        for joint_idx in itertools.islice(pull, cls.INFLUENCE_LIMIT):\n"},
+    {"name": "R1 VertexWeights.deserialize sentinel loop without the influence limit", "file": MESH, "expect": "C08.R1",
+     "old": "        for _ in range(cls.INFLUENCE_LIMIT):\n            joint_idx = reader.read_bytes(1)[0]\n"
+            "            if joint_idx == cls.INFLUENCE_TERM:\n                break\n",
+     "new": "        for joint_idx in iter(lambda: reader.read_bytes(1)[0], cls.INFLUENCE_TERM):\n"},
+    # ------------------------------------------------------------------ R10
+    {"name": "R10 OptionalFlagged no longer marked OPTIONAL", "file": SER, "expect": "C08.R10",
+     "old": "class OptionalFlagged(SerializableBase):\n    OPTIONAL = True\n", "new": "class OptionalFlagged(SerializableBase):\n"},
+    {"name": "R10 OptionalPrefixed marker switched off", "file": SER, "expect": "C08.R10",
+     "old": "    \"\"\"Field prefixed by a U8 indicating whether or not it's present\"\"\"\n    OPTIONAL = True\n",
+     "new": "    \"\"\"Field prefixed by a U8 indicating whether or not it's present\"\"\"\n    OPTIONAL = False\n"},
+    {"name": "P R10 IfPresent additionally marked OPTIONAL (harmless), annotated spelling", "file": SER, "expect": "silent",
+     "old": "    \"\"\"Only write if non-None, or read if there are bytes left\"\"\"\n",
+     "new": "    \"\"\"Only write if non-None, or read if there are bytes left\"\"\"\n    OPTIONAL: bool = True\n"},
+    # ------------------------------------------------------------------ R11
+    {"name": "R11 Collection only takes primitives and adapters as length specs", "file": SER, "expect": "C08.R11",
+     "old": "        if isinstance(length, SerializableBase):\n", "new": "        if isinstance(length, (SerializablePrimitive, Adapter)):\n"},
+    {"name": "P R11 Collection constructor branches reordered, class given as a tuple", "file": SER, "expect": "silent",
+     "old": "        if isinstance(length, SerializableBase):\n            self._len_spec = length\n"
+            "        elif isinstance(length, int):\n            self._length = length\n",
+     "new": "        if isinstance(length, int):\n            self._length = length\n"
+            "        elif isinstance(length, (SerializableBase,)):\n            self._len_spec = length\n"},
+    # ------------------------------------------------------------------ R12
+    {"name": "R12 default default_value() needs an instance", "file": SER, "expect": "C08.R12",
+     "old": "    @classmethod\n    def default_value(cls) -> Any:\n        # None may be a valid default, so return MISSING as a sentinel val\n",
+     "new": "    def default_value(self) -> Any:\n        # None may be a valid default, so return MISSING as a sentinel val\n"},
+    {"name": "R12 BinaryLLSD overrides calc_size as an instance method", "file": SER, "expect": "C08.R12",
+     "old": "class BinaryLLSD(SerializableBase):\n", "new": "class BinaryLLSD(SerializableBase):\n    def calc_size(self):\n        return None\n\n"},
+    {"name": "P R12 Null spells out its own class-level calc_size", "file": SER, "expect": "silent",
+     "old": "class Null(SerializableBase):\n", "new": "class Null(SerializableBase):\n    @classmethod\n    def calc_size(cls):\n        return 0\n\n"},
     # ------------------------------------------------------------------ documented limits (value level)
     {"name": "X Str strips NULs on both ends (same wire shape, different value)", "file": SER, "expect": "miss",
      "old": "                instance += b\"\\x00\"\n        writer.write(self._bytes_tmpl, instance, ctx=ctx)\n\n"
